@@ -245,7 +245,11 @@ pub struct HvcCArray {
 }
 
 impl<R: Read + Seek> ReadBox<&mut R> for HvcCBox {
-    fn read_box(reader: &mut R, _size: u64) -> Result<Self> {
+    fn read_box(reader: &mut R, size: u64) -> Result<Self> {
+        // Bytes of the box left after its 23 fixed bytes: arrays and parameter sets
+        // must fit into them, whatever counts and lengths they declare.
+        let mut remaining = size.saturating_sub(HEADER_SIZE + 23);
+
         let configuration_version = reader.read_u8()?;
         let params = reader.read_u8()?;
         let general_profile_space = (params & 0b11000000) >> 6;
@@ -272,12 +276,27 @@ impl<R: Read + Seek> ReadBox<&mut R> for HvcCBox {
 
         let mut arrays = Vec::with_capacity(num_of_arrays as _);
         for _ in 0..num_of_arrays {
+            if remaining < 3 {
+                return Err(Error::InvalidData("hvcC array extends beyond the box"));
+            }
+            remaining -= 3;
             let params = reader.read_u8()?;
             let num_nalus = reader.read_u16::<BigEndian>()?;
-            let mut nalus = Vec::with_capacity(num_nalus as usize);
+            let mut nalus = Vec::with_capacity((num_nalus as u64).min(remaining / 2) as usize);
 
             for _ in 0..num_nalus {
+                if remaining < 2 {
+                    return Err(Error::InvalidData(
+                        "hvcC parameter set extends beyond the box",
+                    ));
+                }
                 let size = reader.read_u16::<BigEndian>()?;
+                if size as u64 > remaining - 2 {
+                    return Err(Error::InvalidData(
+                        "hvcC parameter set extends beyond the box",
+                    ));
+                }
+                remaining -= 2 + size as u64;
                 let mut data = vec![0; size as usize];
 
                 reader.read_exact(&mut data)?;
